@@ -435,4 +435,112 @@ theorem bracketed_expression_at_token_boundaries (st : State) (ls : List String)
   obtain ⟨tB, htB⟩ := hpre k h1 h2
   exact openText_of_boundary (hbound k h1 h2) htB (hopen k h1 h2)
 
+/-! ### non-vacuity: executable checks of the hypotheses -/
+
+open LispModel.Proofs.LayoutFull (tokOf) in
+/-- `n` iterations of the token loop, none of them with an error -/
+def runSteps : Nat → St → Option (List Token × St)
+  | 0, s => some ([], s)
+  | n + 1, s =>
+    match scan (s.2.1.length + 2) s.2.1 s.1 s.2.2 with
+    | (some (k, text), s') =>
+      if s'.2.2.errs = 0 then
+        match runSteps n s' with
+        | some (ts, fin) => some (tokOf k text s'.2.2 :: ts, fin)
+        | none => none
+      else none
+    | (none, _) => none
+
+theorem runSteps_sound : ∀ (n : Nat) (s : St) (ts : List Token) (fin : St),
+    runSteps n s = some (ts, fin) → Steps s ts fin
+  | 0, s, ts, fin, h => by
+    simp only [runSteps, Option.some.injEq, Prod.mk.injEq] at h
+    obtain ⟨rfl, rfl⟩ := h
+    exact .refl _
+  | n + 1, s, ts, fin, h => by
+    unfold runSteps at h
+    split at h
+    · rename_i k text s' hs
+      split at h
+      · rename_i he
+        split at h
+        · rename_i ts' fin' hr
+          simp only [Option.some.injEq, Prod.mk.injEq] at h
+          obtain ⟨rfl, rfl⟩ := h
+          exact .step hs he (runSteps_sound n s' ts' _ hr)
+        · cases h
+      · cases h
+    · cases h
+
+/-- the token loop of `a ++ "\n" ++ b` after `n` tokens -/
+def atBoundary (a b : String) (n : Nat) : Option (List Token × St) :=
+  runSteps n (start (runesOf a.toList ++ runesOf ('\n' :: b.toList)))
+
+def boundaryToks (a b : String) (n : Nat) : List Token :=
+  match atBoundary a b n with
+  | some (ts, _) => ts
+  | none => []
+
+def lineEndsB (a b : String) (n : Nat) : Bool :=
+  match atBoundary a b n with
+  | some (_, fin) => decide (fin.1 = 10) && decide (fin.2.1 = runesOf b.toList)
+  | none => false
+
+theorem lineEndsB_sound (a b : String) (n : Nat) (h : lineEndsB a b n = true) :
+    LineEndsAtToken a b (boundaryToks a b n) := by
+  unfold lineEndsB at h
+  unfold boundaryToks
+  split at h
+  · rename_i ts fin hr
+    rw [Bool.and_eq_true, decide_eq_true_eq, decide_eq_true_eq] at h
+    exact ⟨fin, runSteps_sound _ _ _ _ hr, h.1, h.2⟩
+  · cases h
+
+def closableB (ts : List Token) (closers : List Char) : Bool :=
+  ts.isEmpty ||
+  (match closers.map closerTok with
+   | [] => false
+   | c :: cs =>
+     (c :: cs).all IsCloser &&
+     (match readForm (2 * (ts ++ c :: cs).length + 2) replCfg (ts ++ c :: cs) with
+      | .ok (_, []) => true
+      | _ => false))
+
+theorem closableB_sound (ts : List Token) (closers : List Char) (h : closableB ts closers = true) :
+    ts = [] ∨ ∃ c cs, IsCloser c = true ∧ (∀ t ∈ cs, IsCloser t = true) ∧
+      ∃ v, readForm (2 * (ts ++ c :: cs).length + 2) replCfg (ts ++ c :: cs) = .ok (v, []) := by
+  unfold closableB at h
+  rcases Bool.or_eq_true _ _ |>.mp h with h | h
+  · left; simpa using h
+  · right
+    split at h
+    · cases h
+    · rename_i c cs _
+      rw [Bool.and_eq_true] at h
+      obtain ⟨hall, hr⟩ := h
+      rw [List.all_cons, Bool.and_eq_true] at hall
+      refine ⟨c, cs, hall.1, fun t ht => List.all_eq_true.mp hall.2 t ht, ?_⟩
+      split at hr
+      · rename_i v hv; exact ⟨v, hv⟩
+      · cases hr
+
+/-- the session `(+ 1` ⏎ `  (* 2` ⏎ `3))`: both line ends are token boundaries of the whole text (after 3 resp. 5
+    tokens), the tokens recorded there are completed by `)` resp. `))`, the prefixes tokenize — the hypotheses of
+    `bracketed_expression_at_token_boundaries` hold — and the run prints exactly the value 7 -/
+theorem example_at_token_boundaries :
+    LineEndsAtToken "(+ 1" "(* 2\n3))" (boundaryToks "(+ 1" "(* 2\n3))" 3) ∧
+    LineEndsAtToken "(+ 1\n(* 2" "3))" (boundaryToks "(+ 1\n(* 2" "3))" 6) ∧
+    (boundaryToks "(+ 1" "(* 2\n3))" 3).length = 3 ∧ (boundaryToks "(+ 1\n(* 2" "3))" 6).length = 6 ∧
+    closableB (boundaryToks "(+ 1" "(* 2\n3))" 3) [')'] = true ∧
+    closableB (boundaryToks "(+ 1\n(* 2" "3))" 6) [')', ')'] = true ∧
+    observation (run initState (["(+ 1", "  (* 2"] ++ ["3))"])).2 = "V37" := by
+  refine ⟨lineEndsB_sound _ _ _ (by decide +kernel), lineEndsB_sound _ _ _ (by decide +kernel), ?_, ?_, ?_, ?_, ?_⟩ <;>
+    decide +kernel
+
+/-- a line break inside a string token is NOT a token boundary: after the tokens `(`, `str` the loop is not at the
+    line break, and after one more scan it has recorded an error -/
+theorem example_not_a_boundary :
+    lineEndsB "(str \"ab" "cd\")" 2 = false ∧ lineEndsB "(str \"ab" "cd\")" 3 = false := by
+  refine ⟨?_, ?_⟩ <;> decide +kernel
+
 end LispModel.ReplLoop
